@@ -41,6 +41,8 @@ namespace
                 cs::run_joint(p, res, hash);
             else if (mode == "cont")
                 cs::run_cont(p, res, hash);
+            else if (mode == "deep")
+                cs::run_deep(p, res, hash);
             else
                 res.skip = "unknown mode";
             for (auto& e : heap.events())
